@@ -85,6 +85,14 @@ impl FormatWriter {
         self.current_line_length = 0;
     }
 
+    /// End the current line unless it has already been ended (a statement whose last expression is a
+    /// `match` block has written its final line break already)
+    pub fn end_line(&mut self) {
+        if !self.at_line_start {
+            self.newline();
+        }
+    }
+
     /// Write multiple blank lines (for spacing between declarations)
     pub fn blank_lines(&mut self, count: usize) {
         for _ in 0..count {
